@@ -127,6 +127,14 @@ def _as_array(values: list, datatype: Optional[str]):
     """
     if datatype == "bytes":
         values = [bytes(value) for value in values]
+    if datatype is None and values and all(isinstance(value, int) for value in values):
+        # numpy's own inference turns a list that mixes integers beyond int64 with smaller ones into float64,
+        # which rounds them: pick the integer type that holds all of them exactly
+        low, high = min(values), max(values)
+        if high > np.iinfo(np.int64).max:
+            datatype = "uint64" if low >= 0 and high <= np.iinfo(np.uint64).max else object
+        elif low < np.iinfo(np.int64).min:
+            datatype = object
     return np.asarray(values, dtype=datatype)
 
 
